@@ -48,12 +48,13 @@ type sessKind struct {
 	name      string
 	neg       bool
 	tracking  bool
-	failWrite int  // fail the n-th socket write (0: none)
-	dialFail  bool // the dial fails
-	refused   bool // Connect again while connected
-	eof       bool // the server closes right after the burst
-	connectTo bool // password given through ConnectTo
-	stall     bool // the server never reads: the registration lines stay queued until the connection ends
+	failWrite int    // fail the n-th socket write (0: none)
+	dialFail  bool   // the dial fails
+	refused   bool   // Connect again while connected
+	eof       bool   // the server closes right after the burst
+	connectTo bool   // password given through ConnectTo
+	stall     bool   // the server never reads: the registration lines stay queued until the connection ends
+	second    string // a second session on the same client with another password, given through "connectTo" or "config"
 }
 
 func kinds() []sessKind {
@@ -61,7 +62,9 @@ func kinds() []sessKind {
 		{name: "dial-failure", dialFail: true}, {name: "refused-connect", refused: true}, {name: "eof-after-burst", eof: true, neg: true},
 		{name: "connect-to", connectTo: true},
 		{name: "stalled-server+close", stall: true}, {name: "negotiation+stalled-server+close", stall: true, neg: true},
-		{name: "negotiation+stalled-server+eof", stall: true, neg: true, eof: true}}
+		{name: "negotiation+stalled-server+eof", stall: true, neg: true, eof: true},
+		{name: "second-session-password-by-ConnectTo", second: "connectTo"}, {name: "second-session-password-in-Config", second: "config", neg: true},
+		{name: "ConnectTo-then-second-ConnectTo", connectTo: true, second: "connectTo"}}
 	for n := 1; n <= 4; n++ {
 		ks = append(ks, sessKind{name: fmt.Sprintf("write-%d-fails", n), failWrite: n})
 		ks = append(ks, sessKind{name: fmt.Sprintf("negotiation+write-%d-fails", n), failWrite: n, neg: true})
@@ -75,6 +78,9 @@ func runSession(k sessKind, pw string, lg *capLog) []string {
 		c.EnableCapabilityNegotiation = k.neg
 		if !k.connectTo {
 			c.Pass = pw
+			if k.second != "" {
+				c.Pass = pw + "-1st"
+			}
 		}
 	})
 	defer s.Net.Release()
@@ -98,7 +104,11 @@ func runSession(k sessKind, pw string, lg *capLog) []string {
 	s.C.HandleFunc(client.DISCONNECTED, func(*client.Conn, *client.Line) { disc <- struct{}{} })
 	var err error
 	if k.connectTo {
-		err = s.C.ConnectTo("irc.example.net:6667", pw)
+		first := pw
+		if k.second != "" {
+			first = pw + "-1st"
+		}
+		err = s.C.ConnectTo("irc.example.net:6667", first)
 		if d := s.Net.Dials(); len(d) > 0 && d[len(d)-1].Conn != nil {
 			s.Srv = d[len(d)-1].Conn
 		}
@@ -144,6 +154,31 @@ func runSession(k sessKind, pw string, lg *capLog) []string {
 		select {
 		case <-done:
 		case <-time.After(2 * time.Second):
+		}
+		if k.second != "" {
+			// the same client again, with another password
+			select {
+			case <-disc:
+			case <-time.After(2 * time.Second):
+			}
+			var err2 error
+			if k.second == "connectTo" {
+				err2 = s.C.ConnectTo("irc.example.net:6667", pw+"-2nd")
+			} else {
+				s.C.Config().Pass = pw + "-2nd"
+				err2 = s.C.Connect()
+			}
+			if err2 == nil {
+				s.LatestSrv()
+				s.Srv.WaitLine("USER ", 0, 2*time.Second)
+				s.Welcome("me", 2*time.Second)
+				done2 := make(chan struct{})
+				go func() { s.C.Close(); close(done2) }()
+				select {
+				case <-done2:
+				case <-time.After(2 * time.Second):
+				}
+			}
 		}
 	}
 	time.Sleep(time.Millisecond)
